@@ -21,6 +21,7 @@ const rule = "node-family scenarios whose wrapped components are consumed throug
 type fataler interface{ Fatalf(string, ...any) }
 
 func decide(t fataler, s *graph.Scenario, plans map[int]graph.WrapPlan, tag string) {
+	withObs := strings.HasSuffix(tag, "+obs")
 	in := s.Instantiate()
 	wrap := &graph.WrapPP{Plan: map[string]graph.WrapPlan{}, IDOf: func(c any) int {
 		if id, ok := in.IDs[reflect.ValueOf(c).Pointer()]; ok {
@@ -36,6 +37,9 @@ func decide(t fataler, s *graph.Scenario, plans map[int]graph.WrapPlan, tag stri
 	}
 	sort.Strings(pl)
 	in.Extra = append(in.Extra, wrap)
+	if withObs {
+		in.Extra = append(in.Extra, &graph.ObsPP{Tag: "c03", Log: in.Log}, &graph.OrderedObsPP{ObsPP: graph.ObsPP{Tag: "c03o", Log: in.Log, OrderV: 1}})
+	}
 	in.Run()
 	desc := tag + " " + s.Shape() + " plans=" + strings.Join(pl, ",")
 	if in.Out.Panic != nil {
@@ -121,14 +125,18 @@ func genPlan(t *rapid.T) graph.WrapPlan {
 func TestRandom(t *testing.T) {
 	kit.Rec.Rule(rule)
 	rapid.Check(t, func(t *rapid.T) {
-		s := graph.Gen(t, graph.GenOpts{MinNodes: 2, MaxNodes: 6, Variants: "NLLPP", Aliases: true, Lookups: true})
+		s := graph.Gen(t, graph.GenOpts{MinNodes: 2, MaxNodes: 6, Variants: "NLLPPE", Aliases: true, Lookups: true})
 		plans := map[int]graph.WrapPlan{}
 		for i, n := range s.Nodes {
 			if n.Variant != 'N' && rapid.IntRange(0, 2).Draw(t, "wrapped") > 0 {
 				plans[i] = genPlan(t)
 			}
 		}
-		decide(t, s, plans, "rich")
+		tag := "rich"
+		if rapid.Bool().Draw(t, "withobs") {
+			tag += "+obs"
+		}
+		decide(t, s, plans, tag)
 	})
 }
 
